@@ -103,7 +103,7 @@ func (dc *DocumentChunker) chunkPage(page *model.Page, docTitle string, currentS
 				updateSectionPath(currentSection, currentHeadingLevel, headingLevel, e.Text)
 
 				// Create heading chunk
-				chunk := dc.createHeadingChunk(e.Text, docTitle, *currentSection, headingLevel, page.Number, chunkIndex)
+				chunk := dc.createHeadingChunk(e.Text, docTitle, copySectionPath(*currentSection), headingLevel, page.Number, chunkIndex)
 				chunks = append(chunks, chunk)
 			} else {
 				// Accumulate text
@@ -111,7 +111,7 @@ func (dc *DocumentChunker) chunkPage(page *model.Page, docTitle string, currentS
 					currentBlock.text += "\n\n"
 				}
 				currentBlock.text += e.Text
-				currentBlock.sectionPath = append([]string{}, *currentSection...)
+				currentBlock.sectionPath = copySectionPath(*currentSection)
 				currentBlock.elementTypes = appendUnique(currentBlock.elementTypes, "paragraph")
 			}
 
@@ -123,7 +123,7 @@ func (dc *DocumentChunker) chunkPage(page *model.Page, docTitle string, currentS
 			updateSectionPath(currentSection, currentHeadingLevel, e.Level, e.Text)
 
 			// Create heading chunk
-			chunk := dc.createChunkFromHeading(e, docTitle, *currentSection, page.Number, chunkIndex)
+			chunk := dc.createChunkFromHeading(e, docTitle, copySectionPath(*currentSection), page.Number, chunkIndex)
 			chunks = append(chunks, chunk)
 
 		case *model.List:
@@ -131,7 +131,7 @@ func (dc *DocumentChunker) chunkPage(page *model.Page, docTitle string, currentS
 			flushTextBlock()
 
 			// Create list chunk
-			chunk := dc.createListChunk(e, docTitle, *currentSection, page.Number, chunkIndex)
+			chunk := dc.createListChunk(e, docTitle, copySectionPath(*currentSection), page.Number, chunkIndex)
 			chunks = append(chunks, chunk)
 
 		case *model.Table:
@@ -139,7 +139,7 @@ func (dc *DocumentChunker) chunkPage(page *model.Page, docTitle string, currentS
 			flushTextBlock()
 
 			// Create table chunk
-			chunk := dc.createTableChunk(e, docTitle, *currentSection, page.Number, chunkIndex)
+			chunk := dc.createTableChunk(e, docTitle, copySectionPath(*currentSection), page.Number, chunkIndex)
 			chunks = append(chunks, chunk)
 
 		case *model.Image:
@@ -148,7 +148,7 @@ func (dc *DocumentChunker) chunkPage(page *model.Page, docTitle string, currentS
 
 			// Create image chunk if it has alt text
 			if e.AltText != "" {
-				chunk := dc.createImageChunk(e, docTitle, *currentSection, page.Number, chunkIndex)
+				chunk := dc.createImageChunk(e, docTitle, copySectionPath(*currentSection), page.Number, chunkIndex)
 				chunks = append(chunks, chunk)
 			}
 		}
@@ -454,6 +454,12 @@ func updateSectionPath(sectionPath *[]string, currentLevel *int, newLevel int, h
 	// Add new section
 	*sectionPath = append(*sectionPath, headingText)
 	*currentLevel = newLevel
+}
+
+// copySectionPath returns a copy of the running section path. Chunks must not
+// share the backing array of the path that later headings keep rewriting.
+func copySectionPath(path []string) []string {
+	return append([]string{}, path...)
 }
 
 // appendUnique appends an item to a slice only if not already present
